@@ -50,6 +50,7 @@ type insertRun struct {
 	extCols   []blockCol
 	cols      []blockCol
 	callbacks int
+	poked     int // columns whose rows were rewritten in place through their exported storage
 }
 
 var errInput = errors.New("input callback: injected failure")
@@ -93,15 +94,20 @@ func runInsertPlan(r *Rng, sc *simClient, q insertQuery, p insertPlan, streamSch
 				_ = fillColumn(cols[i], add)
 				cur[i] = concatCols(cur[i], add)
 			}
-		case "reset-append", "overwrite":
+		case "reset-append", "overwrite", "poke":
 			k := rd.Rows
-			if rd.Mut == "overwrite" && len(cur) > 0 {
+			if rd.Mut != "reset-append" && len(cur) > 0 {
 				k = cur[0].NRows() // same number of rows: the old memory is overwritten in place
 			}
 			for i, t := range p.types {
-				cols[i].Reset()
 				add := genCol(r, t, k, genOpts{})
-				_ = fillColumn(cols[i], add)
+				if rd.Mut == "poke" && pokeColumn(cols[i], add) {
+					// the rows were rewritten through the column's exported storage, no Reset, no Append
+					run.poked++
+				} else {
+					cols[i].Reset()
+					_ = fillColumn(cols[i], add)
+				}
 				cur[i] = add
 			}
 		}
@@ -439,10 +445,10 @@ func genPlan(r *Rng, maxRounds int) insertPlan {
 	if p.hasCB {
 		k := r.Intn(maxRounds + 1)
 		for i := 0; i < k; i++ {
-			rd := inputRound{Mut: []string{"append", "reset-append", "overwrite", "none"}[r.Intn(4)], Rows: 1 + r.Intn(4), Ret: "nil"}
+			rd := inputRound{Mut: []string{"append", "reset-append", "overwrite", "none", "poke"}[r.Intn(5)], Rows: 1 + r.Intn(4), Ret: "nil"}
 			p.rounds = append(p.rounds, rd)
 		}
-		last := inputRound{Mut: []string{"none", "reset-append", "append"}[r.Intn(3)], Rows: 1 + r.Intn(3), Ret: []string{"eof", "eof", "wrapped-eof", "error"}[r.Intn(4)]}
+		last := inputRound{Mut: []string{"none", "reset-append", "append", "poke"}[r.Intn(4)], Rows: 1 + r.Intn(3), Ret: []string{"eof", "eof", "wrapped-eof", "error"}[r.Intn(4)]}
 		if r.Chance(40) {
 			last.Mut = "reset-append"
 			last.Rows = 0 // Reset and EOF: nothing left
@@ -476,6 +482,9 @@ func planExpect(p insertPlan) (terminator bool, wantErr bool) {
 	return true, false
 }
 
+// a plan that c02One runs instead of a generated one (directed cases)
+var c02ForcedPlan *insertPlan
+
 func c02One(c *Ctx, r *Rng, o simOpts, prop string) {
 	R := c.R
 	sc, err := connectSim(o)
@@ -487,7 +496,9 @@ func c02One(c *Ctx, r *Rng, o simOpts, prop string) {
 	q := genInsertQuery(r, sc.enc.rev)
 	var p insertPlan
 	isInsert := prop == "C09" || r.Chance(65)
-	if isInsert {
+	if c02ForcedPlan != nil {
+		p = *c02ForcedPlan
+	} else if isInsert {
 		p = genPlan(r, 4)
 		if prop == "C02" && r.Chance(30) {
 			p.external = []*TNode{genType(r)}
@@ -589,5 +600,27 @@ func runC09(c *Ctx) {
 	for i := 0; i < n; i++ {
 		o := simOpts{compression: c03Compressions[r.Intn(len(c03Compressions))], serverRev: c02Revs[r.Intn(len(c02Revs))], readTimeout: 80 * time.Millisecond}
 		c02One(c, r.Fork(), o, "C09")
+	}
+	// directed: rows rewritten in place through the column's exported storage (no Reset, no Append), the row count staying
+	// the same from round to round — on LowCardinality (whose dictionary and keys are derived state), on a zero-copy column
+	for _, ts := range []string{"LowCardinality(String)", "LowCardinality(UInt32)", "UInt64", "Int8"} {
+		t, err := parseCH(ts)
+		if err != nil {
+			continue
+		}
+		for _, comp := range []ch.Compression{ch.CompressionDisabled, ch.CompressionLZ4} {
+			for _, last := range []string{"eof", "nil-then-eof"} {
+				p := insertPlan{types: []*TNode{t}, names: []string{"c0"}, initial: 3, hasCB: true}
+				p.rounds = []inputRound{{Mut: "poke", Rows: 3, Ret: "nil"}, {Mut: "poke", Rows: 3, Ret: "nil"}}
+				if last == "eof" {
+					p.rounds = append(p.rounds, inputRound{Mut: "poke", Rows: 3, Ret: "eof"})
+				} else {
+					p.rounds = append(p.rounds, inputRound{Mut: "reset-append", Rows: 0, Ret: "eof"})
+				}
+				c02ForcedPlan = &p
+				c02One(c, r.Fork(), simOpts{compression: comp, serverRev: 54460, readTimeout: 80 * time.Millisecond}, "C09")
+				c02ForcedPlan = nil
+			}
+		}
 	}
 }
